@@ -2,6 +2,7 @@ package props
 
 import (
 	"fmt"
+	"math"
 
 	"verifharness/mon"
 )
@@ -87,6 +88,12 @@ func fileCases(r *mon.Run) []fileCase {
 	}
 	if !r.Quick() {
 		add(256, "size-1", 256*256+1, "rand", "wide")
+	}
+	// "never nest": link widths far beyond any file (up to the largest int)
+	for _, w := range []int{1 << 31, 1 << 40, math.MaxInt - 1, math.MaxInt} {
+		for _, n := range []int{0, 1, 2, 9} {
+			add(w, "size-3", n*3, "rand", "unbounded-width")
+		}
 	}
 	// other chunk sizes
 	for _, ks := range []int{1, 3, 7, 16, 256} {
